@@ -26,16 +26,9 @@ import (
 
 var plainName = regexp.MustCompile(`^[a-zA-Z][a-zA-Z0-9_\-]*$`)
 
-// executeNamed is vlib.Execute with the scenario registered under an arbitrary name
-// (vlib.Execute always uses vlib.ScenarioName).
-func executeNamed(spec *vlib.RunSpec, name string) (*run.Result, error) {
-	if name == vlib.ScenarioName {
-		out, err := vlib.Execute(spec)
-		if err != nil {
-			return nil, err
-		}
-		return out.Result, nil
-	}
+// buildNamed builds the run (run.NewRun) with the scenario registered under an arbitrary name
+// (vlib.Execute always uses vlib.ScenarioName); the caller executes it with Do.
+func buildNamed(spec *vlib.RunSpec, name string) (*run.Run, error) {
 	if spec.Mode == "file" && plainName.MatchString(name) {
 		cp := *spec
 		cp.FileYAML = strings.Replace(spec.FileYAML, "scenario: "+vlib.ScenarioName+"\n", "scenario: "+name+"\n", 1)
@@ -62,11 +55,7 @@ func executeNamed(spec *vlib.RunSpec, name string) (*run.Result, error) {
 	if err != nil {
 		return nil, fmt.Errorf("new run: %w", err)
 	}
-	res, err := r.Do(context.Background())
-	if err != nil {
-		return nil, fmt.Errorf("do: %w", err)
-	}
-	return res, nil
+	return r, nil
 }
 
 type runPlan struct {
@@ -151,10 +140,27 @@ func TestProp_ConsecutiveRuns(t *testing.T) {
 		if processWide {
 			instance = metrics.Instance()
 		}
+		// in one case in four all runs are built first (run.NewRun) and executed afterwards: a run starts
+		// from empty summaries when it is executed, whenever it was built
+		buildFirst := nRuns >= 2 && rapid.IntRange(0, 3).Draw(rt, "buildAllRunsFirst") == 0
+		var prebuilt []*prepared
+		if buildFirst {
+			for i, p := range plans {
+				pre, err := prepareRun(dir, instance, p)
+				if err != nil {
+					rt.Fatalf("VERIF-INFRA: cannot build run %d %s: %v", i, p, err)
+				}
+				prebuilt = append(prebuilt, pre)
+			}
+		}
 		obs := []runObs{}
 		violation, infra := "", ""
 		for i, p := range plans {
-			o, v, inf := oneRun(dir, instance, labels, metricsOn, p, i)
+			var pre *prepared
+			if buildFirst {
+				pre = prebuilt[i]
+			}
+			o, v, inf := oneRun(dir, instance, labels, metricsOn, p, i, pre)
 			obs = append(obs, o)
 			if v != "" || inf != "" {
 				violation, infra = v, inf
@@ -169,6 +175,9 @@ func TestProp_ConsecutiveRuns(t *testing.T) {
 		}
 		if processWide {
 			cls = append(cls, "process-wide-instance")
+		}
+		if buildFirst {
+			cls = append(cls, "all-runs-built-before-the-first-is-executed")
 		}
 		seen := map[string]bool{}
 		add := func(c string) {
@@ -217,10 +226,29 @@ func TestProp_ConsecutiveRuns(t *testing.T) {
 
 // oneRun performs run number idx on the shared instance and compares the gathered metrics with
 // the result snapshot and the body-side counters. It returns (observation, violation, infra).
-func oneRun(dir string, instance *metrics.Metrics, labels labelSpec, metricsOn bool, p runPlan, idx int) (runObs, string, string) {
-	o := runObs{Plan: p}
-	var passed, failed atomic.Uint64
-	var inFlight atomic.Int64
+// prepared is a run that has been built (run.NewRun) but not executed yet.
+type prepared struct {
+	r              *run.Run
+	passed, failed atomic.Uint64
+	inFlight       atomic.Int64
+}
+
+// executeNamed builds the run and executes it at once.
+func executeNamed(spec *vlib.RunSpec, name string) (*run.Result, error) {
+	r, err := buildNamed(spec, name)
+	if err != nil {
+		return nil, err
+	}
+	res, err := r.Do(context.Background())
+	if err != nil {
+		return nil, fmt.Errorf("do: %w", err)
+	}
+	return res, nil
+}
+
+func prepareRun(dir string, instance *metrics.Metrics, p runPlan) (*prepared, error) {
+	pre := &prepared{}
+	passed, failed, inFlight := &pre.passed, &pre.failed, &pre.inFlight
 	scenario := func(st *f1testing.T) f1testing.RunFn {
 		for _, name := range p.TimedSteps {
 			st.Time(name, func() {})
@@ -259,7 +287,21 @@ func oneRun(dir string, instance *metrics.Metrics, labels labelSpec, metricsOn b
 	spec.ScenarioFn = scenario
 	spec.WaitTimeout = 20 * time.Second
 	spec.Metrics = instance
-	res, err := executeNamed(spec, p.Name)
+	r, err := buildNamed(spec, p.Name)
+	pre.r = r
+	return pre, err
+}
+
+func oneRun(dir string, instance *metrics.Metrics, labels labelSpec, metricsOn bool, p runPlan, idx int, pre *prepared) (runObs, string, string) {
+	o := runObs{Plan: p}
+	if pre == nil {
+		var err error
+		if pre, err = prepareRun(dir, instance, p); err != nil {
+			return o, "", fmt.Sprintf("cannot build run %d %s: %v", idx, p, err)
+		}
+	}
+	passed, failed, inFlight := &pre.passed, &pre.failed, &pre.inFlight
+	res, err := pre.r.Do(context.Background())
 	if err != nil {
 		return o, "", fmt.Sprintf("cannot execute run %d %s: %v", idx, p, err)
 	}
@@ -508,7 +550,7 @@ func TestRegress(t *testing.T) {
 			{Name: "first", Shape: users, FailEvery: 3, PanicEvery: 7, Setup: "ok"},
 			{Name: "third name", Shape: users, Setup: "failnow"},
 		} {
-			_, v, inf := oneRun(dir, inst, labels, on, p, i)
+			_, v, inf := oneRun(dir, inst, labels, on, p, i, nil)
 			if inf != "" {
 				t.Fatalf("VERIF-INFRA: %s", inf)
 			}
